@@ -300,6 +300,8 @@ class Evaluator:
 
     # -- iteration helpers --------------------------------------------------
     def elem_of(self, src):
+        if src[0] in ("sorted", "reversed"):
+            return self.elem_of(src[1])
         if src[0] == "seq":
             return src[2]
         if src[0] == "zip":
@@ -469,7 +471,11 @@ class Evaluator:
                 if a[0] == "lit":
                     return ("lit", n, a[2])
                 if a[0] in ("vals", "keys", "items", "field", "zip"):
-                    return a if n in ("list", "tuple") else ("call", n, args, kwargs)
+                    if n in ("list", "tuple"):
+                        return a
+                    if n in ("sorted", "reversed"):
+                        return (n, a)
+                    return ("call", n, args, kwargs)
                 return ("call", n, args, kwargs)
             if n in ("immutabledict", "dict") and len(args) == 1 and not kwargs:
                 return args[0]
@@ -670,7 +676,7 @@ def base_field(v, depth=0):
     t = v[0]
     if t == "field":
         return v[1]
-    if t in ("elem", "vals", "val", "items", "keys"):
+    if t in ("elem", "vals", "val", "items", "keys", "key", "sorted", "reversed"):
         return base_field(v[1], depth + 1)
     if t in ("index", "slice"):
         return base_field(v[1], depth + 1)
